@@ -52,7 +52,7 @@ def gen_cases(ctx, scale=1.0):
     for threads in (1, 2):
         for npieces in (1, 3 * threads, 3 * threads + 2):
             for k in range(1, npieces + 1):
-                for d in ('cancel', 'raise'):
+                for d in ('cancel', 'raise', 'raise-base'):
                     for mode in ('generate', 'verify'):
                         c = base(threads, npieces, mode)
                         c['cb'] = {'table': {str(k): d}}
@@ -84,7 +84,7 @@ def gen_cases(ctx, scale=1.0):
         kind = rng.choice(['cb-cancel', 'cb-raise', 'read-oserror', 'read-oom', 'refuse', 'cb+read'])
         c['fault'] = kind
         if kind in ('cb-cancel', 'cb-raise', 'cb+read'):
-            c['cb'] = {'table': {str(rng.randint(1, npieces)): 'cancel' if kind == 'cb-cancel' else rng.choice(['raise', 'cancel'])}}
+            c['cb'] = {'table': {str(rng.randint(1, npieces)): 'cancel' if kind == 'cb-cancel' else rng.choice(['raise', 'raise-base', 'cancel'])}}
         if kind in ('read-oserror', 'cb+read'):
             c['read_fault'] = rng.randint(1, 2 * npieces)
             c['read_fault_kind'] = 'oserror'
@@ -93,7 +93,7 @@ def gen_cases(ctx, scale=1.0):
         if kind == 'read-oom':
             c['read_fault'] = rng.randint(1, 2 * npieces)
             c['read_fault_kind'] = 'memory'
-            c['read_fault_burst'] = rng.choice([1, 1, 2, 3, 8, 40])
+            c['read_fault_burst'] = rng.choice([1, 1, 2, 3, 8, 40, 10 ** 9, 10 ** 9])
             c['cb'] = rng.choice([None, {'table': {}}])
         if kind == 'refuse':
             c['refuse'] = [rng.choice(['reader', 'janitor'] + [f'hasher{i+1}' for i in range(threads)])]
@@ -132,7 +132,7 @@ def judge(ctx, c, case, obs, rep, c02reply, prop):
             problems.append(f'generate() did not succeed ({res}) but stored a piece string of {len(stored)} bytes')
             tags.append('pieces')
     # --- what the caller gets
-    raise_k = [int(k) for k, v in table.items() if v == 'raise']
+    raise_k = [int(k) for k, v in table.items() if v in ('raise', 'raise-base')]
     cancel_k = [int(k) for k, v in table.items() if v == 'cancel']
     cb_raised = any(cl['done'] in raise_k for cl in obs['calls'])
     cb_cancelled = any(cl['done'] in cancel_k for cl in obs['calls'])
@@ -146,6 +146,9 @@ def judge(ctx, c, case, obs, rep, c02reply, prop):
         if not ('raised' in res and res['raised'].get('kind') == 'read'):
             problems.append(f'a content file failed to read but the caller got {res} instead of the read error')
             tags.append('result')
+    if 'raised' in res and res['raised'].get('kind') == 'spin':
+        problems.append('persistent MemoryError: the reader keeps retrying the read forever instead of giving up with the read error')
+        tags.append('hang')
     if 'raised' in res and res['raised'].get('kind') == 'internal':
         problems.append(f'internal exception escaped: {res["raised"]}')
         tags.append('result')
